@@ -5,6 +5,7 @@ import (
 	"sort"
 	"strings"
 	"sync"
+	"unsafe"
 
 	"github.com/mit-pdos/go-nfsd/fstxn"
 )
@@ -25,7 +26,7 @@ type LockEv struct {
 type LockMon struct {
 	mu     sync.Mutex
 	seq    int
-	txnIds map[*fstxn.FsTxn]int
+	txnIds map[uintptr]int // keyed by the transaction's address, not by a pointer: the monitor must not keep finished transactions (and through them whole server instances) alive
 	nextT  int
 	held   map[uint64]int // inum -> txn id
 	rec    bool
@@ -39,7 +40,7 @@ type LockMon struct {
 	WantCtx bool
 }
 
-var Mon = &LockMon{txnIds: map[*fstxn.FsTxn]int{}, held: map[uint64]int{}}
+var Mon = &LockMon{txnIds: map[uintptr]int{}, held: map[uint64]int{}}
 
 func init() {
 	fstxn.VerifHook = Mon.hook
@@ -47,11 +48,12 @@ func init() {
 
 func (m *LockMon) hook(ev string, op *fstxn.FsTxn, inum uint64) {
 	m.mu.Lock()
-	id, ok := m.txnIds[op]
-	if !ok {
+	key := uintptr(unsafe.Pointer(op))
+	id, ok := m.txnIds[key]
+	if !ok || ev == "begin" { // an address can be reused by a later transaction: "begin" always starts a new one
 		m.nextT++
 		id = m.nextT
-		m.txnIds[op] = id
+		m.txnIds[key] = id
 	}
 	m.seq++
 	switch ev {
@@ -125,7 +127,7 @@ func applyCtx() string {
 // Reset forgets all state (call when starting a fresh server after abandoning a wedged one).
 func (m *LockMon) Reset() {
 	m.mu.Lock()
-	m.txnIds = map[*fstxn.FsTxn]int{}
+	m.txnIds = map[uintptr]int{}
 	m.held = map[uint64]int{}
 	m.evs = nil
 	m.NBegin = 0
@@ -143,7 +145,7 @@ func (m *LockMon) Held() []int {
 	sort.Ints(r)
 	// transactions that ended cannot be told apart from running ones here; forget ids of idle maps lazily
 	if len(m.held) == 0 && len(m.txnIds) > 4096 {
-		m.txnIds = map[*fstxn.FsTxn]int{}
+		m.txnIds = map[uintptr]int{}
 	}
 	return r
 }
